@@ -527,6 +527,26 @@ def _task_lookup(task):
                 if not (got == want and type(got) is type(want)):
                     t.violation({"kind": "discrete-lookup"}, {"form": "DiscreteLookup", "criteria": crit, "value": value, "A": a, "B": b},
                                 expected=want, observed=repr(got))
+    # a lookup asked about a value that is being decoded (documented second argument): comparisons on a parameter the packet does not carry
+    # yet are made against that value, the others against the packet
+    for crit in ((("SELF", "==", "1"),), (("SELF", ">=", "1"), ("A", "==", "0")), (("A", "!=", "2"), ("SELF", "<", "2"))):
+        for cur in (0, 1, 2, 1.0):
+            for a in range(3):
+                env = {"A": a, "SELF": cur}
+                holds = all(interp.relate(op, env[p], int(lit)) for p, op, lit in crit)
+                # evaluable in order up to the first failing comparison
+                dl = comparisons.DiscreteLookup([comparisons.Comparison(lit, p, operator=op, use_calibrated_value=(p != "SELF")) for p, op, lit in crit], 24.0)
+                t.evals += 1
+                try:
+                    with observed_warnings():
+                        got = dl.evaluate(CCSDSPacket(A=common.IntParameter(a)), cur)
+                except Exception as e:  # noqa: BLE001
+                    got = f"raised:{type(e).__name__}"
+                t.nontrivial += 1
+                want = 24.0 if holds else None
+                if not (got == want and type(got) is type(want)):
+                    t.violation({"kind": "discrete-lookup", "own_value": True}, {"form": "DiscreteLookup-own-value", "criteria": crit, "A": a, "current": cur},
+                                expected=want, observed=repr(got))
     # lookup LISTS as their consumers use them (a binary and a string field sized by the list): the value of the FIRST entry whose criteria
     # all hold; entries after it are not consulted (here some of them refer to a parameter Z that the packet does not carry)
     from space_packet_parser.xtce import encodings
